@@ -26,9 +26,11 @@ HL7_MAXLEN = {'NM': 16, 'SI': 4}           # HL7 / documented maximum lengths of
 ALPHA = '019.+- x'
 WIDE = '01.+-eE_ \nnaNif\x1c'
 F10 = {
-    'DT': ['202011 1', '2020021 ', '20201301', '0999', '0000', '20200229', '20210229', '19000229', '20000229'],
+    'DT': ['202011 1', '2020021 ', '20201301', '0999', '0000', '20200229', '20210229', '19000229', '20000229',
+           '09990101', '0001', '00010101', '009912', '00991231', '01000229', '04000229', '00000101'],
     'DTM': ['202011 1', '202011 112', '202011 1+0100', '2020+0100+0100', '20200101120000.1234+0100',
-            '20200101120000.12345', '2020010112+1500', '2020010124'],
+            '20200101120000.12345', '2020010112+1500', '2020010124',
+            '0999', '09990101', '0001+0100', '00991231235959.1234+0100', '000101010000', '0000'],
     'TM': ['12+0100+0100', '1+01001+0100', '12+0100', '2400', '1260', '125960', '125961', '120000.1234',
            '120000.12345', '12+1500', '12-1300', '12+1459', '12-1259', '12+0060', '12+0100\n', '+0100'],
     'NM': [' 1 ', '1_0', '1e5', 'NaN', 'Infinity', '-inf', 'sNaN12', '0.0000001', '0.0000000', '0.000001',
@@ -389,7 +391,7 @@ class Oracle(object):
 
     def roundtrip(self, dt, s, enc, base, lvl):
         if dt in ('DT', 'DTM', 'TM'):
-            if (dt == 'TM' or s[0] != '0') and enc != s:      # years 1000-9999 (the property's range)
+            if enc != s:      # every accepted year, 0001-9999 (to_er7 prints the year with four digits)
                 self.fail('roundtrip-text-changed', 'an accepted conforming value encodes to different text',
                           (dt,), encoded=enc, level=lvl, **base)
             return
@@ -492,7 +494,7 @@ def gen_inputs(run):
         o = rand_offset(rng) if rng.random() < 0.4 else ''
         fr.append(t + sep + f + o)
     inp['TM']['fraction'] = (fr, 1.0)
-    dates = ['20240229', '19991231', '10000101', '99991231']
+    dates = ['20240229', '19991231', '10000101', '99991231', '09991231', '00990101', '00010101']
     inp['DTM']['hh'] = ([d + '%02d' % n for d in dates[:2] for n in range(100)], 1.0)
     inp['DTM']['hhmm'] = ([dates[0] + t for t in hhmm], 1.0 if T else 0.2)
     inp['DTM']['hhmmss'] = ([rng.choice(dates) + t for t in rng.sample(six, 200000 if T else 30000)], frac6 if T else 0.2)
@@ -519,7 +521,7 @@ def gen_inputs(run):
                                      ['20240229' + r for r in rep[len(rep) // 2:]], 1.0)
     # ---- calendar
     cal = []
-    for y in (1, 999, 1000, 1900, 2000, 2023, 2024, 9999):
+    for y in (0, 1, 4, 99, 100, 400, 999, 1000, 1900, 2000, 2023, 2024, 9999):
         for m in range(0, 14):
             cal.append('%04d%02d' % (y, m))
             for d in range(0, 33):
@@ -527,13 +529,27 @@ def gen_inputs(run):
             for d in range(1, 10):
                 cal.append('%04d%02d %d' % (y, m, d))
                 cal.append('%04d%02d%d ' % (y, m, d))
-    feb = ['%04d02%02d' % (y, d) for y in range(1000, 10000) for d in (28, 29, 30)]
+    feb = ['%04d02%02d' % (y, d) for y in range(0, 10000) for d in (28, 29, 30)]
     years = ['%04d' % y for y in range(0, 10000, 1 if T else 7)]
     inp['DT']['calendar'] = (cal, 1.0)
     inp['DT']['february'] = (feb, 1.0 if T else 0.15)
     inp['DT']['years'] = (years, 0.3)
     inp['DTM']['calendar'] = (cal + [c + '12' for c in cal[::5]], 1.0 if T else 0.5)
     inp['DTM']['february'] = ([f + rng.choice(('', '12', '1230+0100')) for f in feb], 0.5 if T else 0.1)
+    # ---- years below 1000 keep their zero padding: every shape of value for the boundary years
+    low = []
+    for y in (1, 9, 10, 99, 100, 999, 1000):
+        yy = '%04d' % y
+        for b in (yy, yy + '01', yy + '12', yy + '0101', yy + '1231', yy + '0228', yy + '0229', yy + '0301'):
+            low.append(b)
+            for o in ('+0000', '-1200', '+1400'):
+                low.append(b + o)
+            if len(b) == 8:
+                for t in ('00', '23', '0000', '2359', '000000', '235959', '235959.1', '235959.1234', '000000.0001'):
+                    low.append(b + t)
+                    low.append(b + t + '+0100')
+    inp['DT']['years_below_1000'] = (low, 1.0)
+    inp['DTM']['years_below_1000'] = (low, 1.0)
     # ---- boundary lengths
     full = '20240229235959.1234+0100'
     pre = [full[:i] for i in range(len(full) + 1)] + [full[:i] + '+0100' for i in range(20)] + \
@@ -573,7 +589,7 @@ def gen_inputs(run):
                 b = rand_time(rng) + (('.' + ''.join(rng.choice('0123456789') for _ in range(rng.randint(1, 4))))
                                       if rng.random() < 0.3 else '') + (rand_offset(rng) if rng.random() < 0.5 else '')
             elif dt == 'DTM':
-                b = '%04d%02d%02d' % (rng.choice((1000, 1999, 2024, 9999)), rng.randint(1, 12), rng.randint(1, 28))
+                b = '%04d%02d%02d' % (rng.choice((1, 99, 999, 1000, 1999, 2024, 9999)), rng.randint(1, 12), rng.randint(1, 28))
                 b = b[:rng.choice((4, 6, 8, 8, 8))]
                 if len(b) == 8:
                     b += rand_time(rng) if rng.random() < 0.7 else ''
@@ -699,7 +715,7 @@ def main(argv=None):
                 chk = impl.checkfn(dt, s)
                 sp = SPEC[dt](s)
                 for gi, g in enumerate(present):
-                    if gi > 0 and not (cat in ('f10', 'near_valid', 'wide', 'lengths') or len(s) <= 4):
+                    if gi > 0 and not (cat in ('f10', 'near_valid', 'wide', 'lengths', 'years_below_1000') or len(s) <= 4):
                         continue
                     v = g[0]
                     so = impl.observe(dt, s, v, 'S')
@@ -775,7 +791,8 @@ def main(argv=None):
                 'class, ST class) pair under STRICT and TOLERANT, to_er7 and utils.check_*; strings: exhaustive '
                 'over {0 1 9 . + - blank x} up to length %d, exhaustive over a 16-letter alphabet (e E _ n a N i f '
                 'newline FS ...) up to length %d for NM/SI, the time-of-day grid, every +/-HHMM offset, calendar '
-                'boundaries, boundary lengths, random strings and mutations of conforming strings, the F10 '
+                'boundaries (years 0000, 0001, 0004, 0099, 0100, 0400, 0999, 1000, ..., 9999; 28-30 Feb of every year), '
+                'every shape of DT/DTM value for the years 0001-1000 boundary, boundary lengths, random strings and mutations of conforming strings, the F10 '
                 'witnesses; non-trivial = conforming to the grammar or accepted under STRICT; every version gets '
                 'the F10 witnesses and a sample; the Coq model is run on every case of the small categories and on '
                 'a random sample of the large ones (longest exhaustive strings, 6-digit times, offsets, 29 Feb)'
@@ -788,8 +805,8 @@ def main(argv=None):
     }, assumptions=[
         'model fidelity is claimed for ASCII text; non-ASCII digits are exercised by the oracle only',
         'NM exponents of more than 18 digits are outside the model',
-        'strftime("%Y") prints years below 1000 without padding on this platform; the round-trip clause is '
-        'evaluated for years 1000-9999 as the property states',
+        'the round-trip clause of DT/DTM is evaluated for every accepted year 0001-9999: DateTimeDataType.to_er7 '
+        'formats the year itself with four digits (strftime("%Y") alone does not pad years below 1000 on this platform)',
         'an empty string is "no value" (SubComponent never passes it to the factory) and is not judged for acceptance',
         'the maximum length is measured on the formatted value, as BaseDataType.__init__ does',
     ])
